@@ -473,6 +473,117 @@ class Analysis:
             if b.local_name(t) and t > b.nargs:
                 self.untracked.add(p["l"])
         self.mutborrow = alias
+        self.pos_sums = self._find_position_sums()
+
+    def _find_position_sums(self):
+        """{id(rvalue): operand of the container}: additions `k + p` where p is the payload of
+        `<container>.iter().skip(k).position(..)` (or `.iter().position(..)`, then k is absent and the entry is keyed on
+        the payload copy instead) and k still holds the value it had when it was handed to skip().  Iterator::position
+        returns an index into what is left after the skip, so k + p < len(container).  Decided statically by single
+        definitions and reaching definitions, so nothing has to be invalidated in the abstract state."""
+        from mir import reaching_defs, defs_reaching
+        b = self.b
+        out = {}
+        pos_calls = [(bi, t) for bi, t in b.calls() if (b.callee_q(t) or "").endswith("::position") and "Iterator" in (b.callee_q(t) or "") and t["args"]]
+        if not pos_calls:
+            return out
+        IN = None
+
+        def single_call_def(l):
+            ds = b.defs().get(l, [])
+            if len(ds) != 1 or ds[0][1] != "t":
+                return None
+            return ds[0][0], b.blocks[ds[0][0]]["t"]
+
+        def root_local(o, depth=0):
+            # follow single-definition plain copies of unnamed temps back to the variable they copy
+            pl = op_place(o)
+            if pl is None or place_proj(pl):
+                return None
+            l = pl["l"]
+            for _ in range(6):
+                if b.local_name(l) or 1 <= l <= b.nargs:
+                    return l
+                ds = b.defs().get(l, [])
+                if len(ds) != 1 or ds[0][1] == "t":
+                    return l
+                rv = b.blocks[ds[0][0]]["s"][ds[0][1]]["rv"]
+                if rv["k"] != "use":
+                    return l
+                q = op_place(rv["o"])
+                if q is None or place_proj(q):
+                    return l
+                l = q["l"]
+            return l
+
+        for bp, tp in pos_calls:
+            if place_proj(tp["dest"]):
+                continue
+            # receiver: &mut <iterator local>
+            a0 = op_place(tp["args"][0])
+            if a0 is None or place_proj(a0):
+                continue
+            rv0 = b.def_rvalue(a0["l"])
+            if rv0 is None or rv0["k"] != "ref" or place_proj(rv0["p"]):
+                continue
+            it = rv0["p"]["l"]
+            d = single_call_def(it)
+            if d is None:
+                continue
+            bs, ts = d
+            qs = (b.callee_q(ts) or "")
+            k_root, k_defs, container = None, None, None
+            if qs.endswith("::skip") and len(ts["args"]) == 2:
+                k_root = root_local(ts["args"][1])
+                if k_root is None:
+                    continue
+                if IN is None:
+                    IN = reaching_defs(b)
+                k_defs = defs_reaching(b, IN, bs, "t", k_root)
+                inner = op_place(ts["args"][0])
+                if inner is None or place_proj(inner):
+                    continue
+                d2 = single_call_def(inner["l"])
+                if d2 is None:
+                    continue
+                bs, ts = d2
+                qs = (b.callee_q(ts) or "")
+            if not (qs.endswith("::iter") and ts["args"]):
+                continue
+            container = ts["args"][0]
+            # payload bindings of the returned Option
+            o = tp["dest"]["l"]
+            payload = set()
+            for bi, si, st in b.stmts():
+                if st["rv"]["k"] == "use" and not place_proj(st["p"]):
+                    src = op_place(st["rv"]["o"])
+                    if src is not None and src["l"] == o and any(e[0] == "dc" for e in place_proj(src)):
+                        payload.add(st["p"]["l"])
+            if not payload:
+                continue
+            for bi, si, st in b.stmts():
+                rv = st["rv"]
+                if rv["k"] != "bin" or rv["op"].replace("WithOverflow", "").replace("Unchecked", "") != "Add":
+                    continue
+                ra, rb = root_local(rv["a"]), root_local(rv["b"])
+                if ra is None or rb is None:
+                    continue
+                pr, other = (ra, rb) if ra in payload else ((rb, ra) if rb in payload else (None, None))
+                if pr is None:
+                    continue
+                # the payload binding itself must be the one definition of that local
+                if len(b.defs().get(pr, [])) != 1:
+                    continue
+                if k_root is None:
+                    continue
+                if other != k_root:
+                    continue
+                if IN is None:
+                    IN = reaching_defs(b)
+                if defs_reaching(b, IN, bi, si, k_root) != k_defs:
+                    continue
+                out[id(rv)] = container
+        return out
 
     def _closure_ok(self, tgt):
         """The captured place is a whole local-ADT struct behind a reference, or a field path inside one: everything
@@ -627,6 +738,12 @@ class Analysis:
                         rel.append(("$r", c[0], c[1] + uba + a[1]))
                     if lba is not None:
                         rel.append((c[0], "$r", -(c[1] - lba + a[1])))
+                    cont = getattr(self, "pos_sums", {}).get(id(rv))
+                    if cont is not None:
+                        # k + p where p = <container>.iter().skip(k).position(..): an index of the container
+                        L = self.len_term(cont)
+                        if L:
+                            rel.append(("$r", L, -1))
                     return ("rel", rel)
                 return None
             if op == "Sub":
